@@ -19,3 +19,6 @@ open Pcore.Object
 #print axioms C17_include_type_honoured
 #print axioms C17_subtype
 #print axioms C17_subtype_strict
+#print axioms C17_type_inithash_partial
+#print axioms C17_type_inithash_same
+#print axioms C17_type_inithash_constant_undef
